@@ -24,8 +24,10 @@ def check(repo, res, tier):
     res.n_clauses = ["deterministic solutions keep the sum constant 'within solver tolerance' (numerics; follows from S1 for "
                      "integrators that preserve linear invariants)"]
     cls = M.sim_class(repo)
-    C01.effect_table_checks(repo, res, cls, names={"get_ode_eqn", "get_StateChangeMatrix"})
-    C01._check_accum(repo, res, cls)
+    from ..rules import buildx as BX
+    nb = BX.check_builders(repo, res, ["get_ode_eqn", "get_StateChangeMatrix"])
+    res.floor("builder interpretations", nb, 18)
+    BX.check_closed(repo, res)
     from ..rules import stepx as X
     res.rule("R-WALK", "every recorded state of a simulated path is the previous one plus (state-change matrix x counts) (+ drift*tau): with zero column sums the total is kept exactly")
     X.check_update(repo, res)
